@@ -216,7 +216,7 @@ func main() {
 					// the runtime on its behalf): the call under test never returned, which no statement allows
 					crashed[j.out] = fmt.Sprintf("%s shard %d (%s %s): %v\n%s", j.part.Name, j.shard, j.part.Bin, strings.Join(args, " "), err, excerpt)
 				} else {
-					failures = append(failures, fmt.Sprintf("%s shard %d: %v\n%s", j.part.Name, j.shard, err, tail(string(outb), 3000)))
+					failures = append(failures, fmt.Sprintf("%s shard %d: %v\n%s", j.part.Name, j.shard, err, lastN(string(outb), 3000)))
 				}
 				mu.Unlock()
 			}
@@ -471,6 +471,13 @@ func sanitize(s string) string {
 func tail(s string, n int) string {
 	if len(s) > n {
 		return s[:n] + "…"
+	}
+	return s
+}
+
+func lastN(s string, n int) string {
+	if len(s) > n {
+		return "…" + s[len(s)-n:]
 	}
 	return s
 }
